@@ -3,7 +3,7 @@
    the implementation's own pre-state, the operation, what it returned and the
    post-state.  Executable only. *)
 From Coq Require Import List NArith ZArith Bool.
-From Verif Require Import Base.Bytes SegLog.Log SegLog.Spec SegLog.Crash.
+From Verif Require Import Base.Bytes SegLog.Log SegLog.Spec SegLog.Crash SegLog.Segment.
 Import ListNotations.
 Open Scope N_scope.
 
@@ -118,7 +118,10 @@ Inductive lcase :=
 | LCrash (id : N) (segsize : N) (pre : log) (c : cstate) (o : op) (kill power : list (option log))
 | LStep (id : N) (pre : log) (o : op) (r : sres) (post : log)
 | LRead (id : N) (pre : log) (rd : read) (obs : robs)
-| LView (id : N) (at_creation : log) (p q : N) (now : log) (rd : read) (obs : robs).
+| LView (id : N) (at_creation : log) (p q : N) (now : log) (rd : read) (obs : robs)
+| LBytes (id : N) (cap : N) (ents : list bytes) (hdr : N) (data : bytes).
+    (* the raw bytes of one segment file of the real log, next to the entries the harness read from it
+       and the header value: the file must be an image of those entries (SegLog/Segment.v b_matches_wf) *)
 
 Definition check_lcase (c : lcase) : bool :=
   match c with
@@ -133,8 +136,9 @@ Definition check_lcase (c : lcase) : bool :=
       | Ok (Some v) => robs_eqb (model_read (view_handle now v) None rd) obs
       | _ => false
       end
+  | LBytes _ cap ents hdr data => b_matches_wf data cap ents hdr
   end.
 Definition lcase_id (c : lcase) : N :=
-  match c with LCrash i _ _ _ _ _ _ | LStep i _ _ _ _ | LRead i _ _ _ | LView i _ _ _ _ _ _ => i end.
+  match c with LCrash i _ _ _ _ _ _ | LStep i _ _ _ _ | LRead i _ _ _ | LView i _ _ _ _ _ _ | LBytes i _ _ _ _ => i end.
 Definition mismatches (l : list lcase) : list N :=
   map lcase_id (filter (fun c => negb (check_lcase c)) l).
